@@ -72,11 +72,8 @@ func (r *Room) Broadcast(message []byte, exclude *Connection) {
 		if exclude != nil && conn == exclude {
 			continue
 		}
-		select {
-		case conn.send <- message:
-		default:
-			// Connection send channel is full, skip it
-		}
+		// Skips the connection when its queue is full or already closed
+		conn.trySend(message)
 	}
 }
 
